@@ -391,6 +391,12 @@ def run(repo, chk):
             if not isinstance(text, str) or 'boom' not in text or 'prog.hid' not in text:
                 bad = f'context {label}: rendered {text!r}'
                 break
+            if label == 'empty':
+                # an error without a position on a source without lines (a zero-byte file) renders too
+                for lines in ([], ['']):
+                    t2 = err.get_info(SC('none.hid', lines))
+                    if not isinstance(t2, str) or 'boom' not in t2 or 'none.hid' not in t2:
+                        bad = f'context {label} on a source with lines {lines!r}: rendered {t2!r}'
             for c in err.context:
                 ln = c.start.line
                 if source.lines[ln] and source.lines[ln] not in text:
@@ -555,7 +561,9 @@ def _line_indexing(repo, chk):
     test of that list (SourceCode.__getitem__ maps the empty source to ''), except where the index is the line
     of an existing span (diagnostic rendering: spans exist only inside existing lines)."""
     chk.rule('C10.X7', 'the line list of a source is only indexed under a non-emptiness test (or by the line of an existing span)')
-    EXEMPT = {('hidc/errors.py', 'get_info'): 'indexed by span.start.line of a reported span; a span implies the line exists'}
+    # diagnostic rendering: indexed by the line of a reported span (a span implies the line exists); that an error without
+    # a position renders on a source without lines is decided by interpretation (C10.X5, CompilerError.get_info)
+    EXEMPT_FILE = {'hidc/errors.py': 'indexed by the line of a reported span; rendering without a position on an empty source is interpreted (C10.X5)'}
     n_sites = 0
     for rel in sorted(repo.files):
         if not rel.startswith('hidc/'):
@@ -577,7 +585,7 @@ def _line_indexing(repo, chk):
                             if t in (obj, f'len({obj})', f'{obj} != []') and st.lineno <= n.lineno <= st.end_lineno and \
                                     any(n in list(ast.walk(b)) for b in st.body):
                                 guarded = True
-                    why = EXEMPT.get((rel, fn.name))
+                    why = EXEMPT_FILE.get(rel)
                     chk.expect(guarded or why is not None, 'C10.X7', f'{rel}::{fn.name}::{src(n)}',
                                why or 'the line list is indexed without a non-emptiness test: a zero-byte source raises IndexError', rel, n.lineno)
     chk.floor('line-list index sites', n_sites, 1)
